@@ -237,6 +237,10 @@ class HistoryGen(object):
     def inv_fields(self, explicit_all=False):
         r = self.rng
         total = r.choice([1, 2, 3, 4, 8, 16, 100])
+        if r.random() < 0.1:
+            # (kbit/s of a NIC, MB of a big host: capacities where a relative
+            # tolerance or float rounding is worth more than one unit)
+            total = r.choice([3000000, 10 ** 7, 2 ** 31 - 1, 2 ** 24 + 1])
         f = {'total': total}
         if explicit_all or r.random() < 0.5:
             f['reserved'] = r.choice([0, 0, 1, max(0, total - 1), total])
